@@ -27,17 +27,27 @@ prop("C20",
      assumptions=["verify (pub s) m (sign s m) = true", "length s = 32 -> length (pub s) = 32",
                   "a random source is modelled as the finite byte string it delivers before failing"])
 
-prop("C06",
-     coq_deps=["Base.v", "Term.v", "Expr.v", "Corr.v", "ExprProofs.v", "TableProofs.v", "Generated.v"],
+SRC_DEPS = ["GoSem.v", "GeneratedFn.v", "GenFnProofs.v", "SourceLevelProofs.v"]
+SRC_TRUSTED = "source translator /verif/genfn (go/parser, go/ast; its own type inference; documented subset in notes/GENFN.md): trusted to translate the Go text of datalog/symbol.go and of the operator Eval functions of datalog/expressions.go into the Gallina definitions of coq/GeneratedFn.v over the prelude Model/GoSem.v (fixed-width arithmetic made explicit, index out of range = Panic outcome, math/big = Z, strings/regexp calls = the model's byte-string functions and the rx oracle, error values = error classes); slice capacity and aliasing are not in that translation"
+prop("C06", source_level=True,
+     coq_deps=["Base.v", "Term.v", "Expr.v", "Corr.v", "ExprProofs.v", "TableProofs.v", "Generated.v"] + SRC_DEPS,
      theorems=["C06_total_no_panic", "C06_total", "C06_arith_exact", "C06_never_wrapped", "C06_ill_typed_is_error",
                "C06_well_typed_iff", "C06_well_typed_result", "C06_result_type", "C06_unary_table", "C06_set_ops", "C06_set_ops_no_repeats",
                "C06_string_ops", "C06_postfix", "C06_ok_is_postfix", "C06_malformed_is_error",
-               "C06_every_operator_has_an_evaluator_arm", "C06_eval_index_level", "C06_index_equality_is_string_equality"],
-     trusted=["Go's regexp is not modelled: Section variable rx (pattern, subject -> option bool); the theorems hold for every rx",
+               "C06_every_operator_has_an_evaluator_arm", "C06_eval_index_level", "C06_index_equality_is_string_equality",
+               "C06_source_add", "C06_source_sub", "C06_source_mul", "C06_source_div", "C06_source_less_than", "C06_source_less_or_equal",
+               "C06_source_greater_than", "C06_source_greater_or_equal", "C06_source_and", "C06_source_or", "C06_source_negate",
+               "C06_source_parens", "C06_source_length", "C06_source_prefix", "C06_source_suffix", "C06_source_regex",
+               "C06_source_arith_exact", "C06_source_never_wrapped", "C06_source_arith_no_panic"],
+     trusted=[SRC_TRUSTED, "Go's regexp is not modelled: Section variable rx (pattern, subject -> option bool); the theorems hold for every rx",
               "the model evaluates resolved (S-level) values: string terms carry their contents; symbol-table interning of "
               "concatenation results is covered by the correspondence (results compared after resolution)",
               "integers are Z, dates N in the model; that operands are 64-bit is a property of their producers (decoder, parser)"],
-     assumptions=["every error other than DivZero/Overflow/Regex/UnknownVar is one class (IllTyped) in the model and in the comparison"])
+     assumptions=["every error other than DivZero/Overflow/Regex/UnknownVar is one class (IllTyped) in the model and in the comparison",
+                  "source-level theorems (Properties/C06_source_level.v): operands in the ranges of the Go types (wf_dterm: int64, uint64, uint32), "
+                  "OFFSET + len(table) + 1 below 2^63 where the source computes it in int (table_fits); Equal, Contains, Intersection, Union and the "
+                  "stack machine Evaluate are translated (genfn -all) but not yet proved equal to the model: for them the tie is the correspondence; "
+                  "the regex oracle is assumed uniform in the subject for compile failures (rx_uniform)"])
 
 AUTHZ_DEPS = ["Base.v", "Term.v", "Expr.v", "Datalog.v", "Authz.v", "Corr.v", "AuthzProofs.v", "Generated.v", "DEval.v", "CorrD.v", "DEvalProofs.v", "DTerm.v", "Symbols.v", "Wire.v", "Token.v", "Chain.v", "SymbolsProofs.v"]
 AUTHZ_TRUSTED = ["Go's regexp is not modelled (Section variable rx; theorems hold for every rx)",
@@ -133,10 +143,11 @@ prop("C11", coq_deps=AUTHZ_DEPS + ["DatalogProofs.v", "ChanLTS.v", "ChanLTSProof
 
 WIRE_DEPS = ["Base.v", "Term.v", "Expr.v", "Datalog.v", "Authz.v", "DTerm.v", "Symbols.v", "Chain.v", "Wire.v", "Token.v", "History.v",
              "Corr.v", "WireProofs.v", "ChainProofs.v", "ExprProofs.v", "AuthzProofs.v", "PipelineProofs.v", "Generated.v"]
-prop("C10", coq_deps=WIRE_DEPS,
+prop("C10", source_level=True, coq_deps=WIRE_DEPS + SRC_DEPS,
      theorems=["C10_unmarshal_total", "C10_unmarshal_with_base_total", "C10_block_decode_total", "C10_policies_decode_total",
                "C10_verify_total", "C10_accepted_sizes", "C10_append_total", "C10_seal_total", "C10_expressions_total",
-               "C10_blocks_phase_total", "C10_authorize_total"],
+               "C10_blocks_phase_total", "C10_authorize_total",
+               "C10_source_str_total", "C10_source_var_total", "C10_source_str_is_model", "C10_source_var_is_model"],
      level_text="PARTIAL proof: every modelled stage (wire decoding incl. protobuf-go's required-field fast path, conversion, size gates, "
                 "symbol check, signature verification, append, seal, expression evaluation, authorization) is a total function whose explicit "
                 "Panic outcome is proved unreachable for every byte string; the crash-freedom of protobuf-go, regexp, fmt and time themselves "
@@ -144,8 +155,9 @@ prop("C10", coq_deps=WIRE_DEPS,
      trusted=["Model/Wire.v is a hand-written model of protobuf-go's proto2 decoding (validated against the library on ~8000 inputs by its "
               "author agent and on every run by the pipeline correspondence)",
               "ed25519 as Section variables; Go's regexp/fmt/time not modelled",
-              "printing (String/Code) totality is stated in C15"],
-     assumptions=["root key is 32 bytes (property text)"])
+              "printing (String/Code) totality is stated in C15", SRC_TRUSTED],
+     assumptions=["root key is 32 bytes (property text)",
+                  "C10_source_*: SymbolTable.Str/Var as translated from the source text return normally for every 64-bit / 32-bit index (len(table) < 2^63)"])
 
 prop("C19", coq_deps=["Base.v", "Footprint.v", "FootprintProofs.v", "TableProofs.v", "Generated.v"],
      theorems=["C19_interleave_readonly", "C19_footprints", "C19_schedules", "C19_old_code_refuted",
@@ -198,7 +210,7 @@ TOKEN_TRUSTED = ["Model/Wire.v: hand-written model of the protobuf wire format a
                  "Model/Token.v / History.v: hand-written model of builder.go / biscuit.go at the symbol-index level; tied by the history "
                  "correspondence (every op outcome, every token's D-level content, cumulative symbol table, envelope and bytes)",
                  "ed25519 as oracle tables (pub/sign computed by crypto/ed25519)"]
-prop("C07", coq_deps=TOKEN_DEPS, theorems=['C07_varint_roundtrip', 'C07_fields_roundtrip', 'C07_block_roundtrip', 'C07_container_roundtrip', 'C07_resolve_intern', 'C07_content_build', 'C07_build_decode', 'C07_content_append', 'C07_append_decode', 'C07_reload', 'C07_reload_accepts', 'C07_version_gate', 'C07_no_capture', 'C07_operator_tables'], trusted=TOKEN_TRUSTED,
+prop("C07", source_level=True, coq_deps=TOKEN_DEPS + SRC_DEPS, theorems=['C07_source_default_table', 'C07_source_offset', 'C07_source_insert', 'C07_source_sym', 'C07_source_extend', 'C07_source_split_off', 'C07_source_clone', 'C07_source_len', 'C07_source_insert_spec', 'C07_varint_roundtrip', 'C07_fields_roundtrip', 'C07_block_roundtrip', 'C07_container_roundtrip', 'C07_resolve_intern', 'C07_content_build', 'C07_build_decode', 'C07_content_append', 'C07_append_decode', 'C07_reload', 'C07_reload_accepts', 'C07_version_gate', 'C07_no_capture', 'C07_operator_tables'], trusted=TOKEN_TRUSTED + [SRC_TRUSTED],
      assumptions=["tables stay below 2^32 entries (small_table), encodings below 2^64 bytes (small), supplied integers are int64 and dates "
                   "uint64 (wf_block_c): the numeric ranges of the Go types",
                   "content theorems are for a token's own blocks, each built once from CreateBlock of that token (token_inv); a block built for "
